@@ -273,6 +273,7 @@ func (c *cluster) generate(rt *rapid.T, p *profile, spec *checkSpec) {
 // closingPhase heals the network, restarts what is down and lets virtual time
 // run; convergence oracles are evaluated by the caller's spec.
 func (c *cluster) closingPhase() {
+	c.step(vAct{A: "unholdall"})
 	c.step(vAct{A: "heal"})
 	c.step(vAct{A: "free"})
 	for _, id := range c.downIDs() {
@@ -280,8 +281,17 @@ func (c *cluster) closingPhase() {
 			c.step(vAct{A: "restart", N: id})
 		}
 	}
-	for i := 0; i < 30 && !c.failed(); i++ {
+	for i := 0; i < 15 && !c.failed(); i++ {
 		c.step(vAct{A: "adv", T: 2000})
+	}
+	if ls := c.leaders(); len(ls) > 0 && !c.failed() {
+		c.step(vAct{A: "probe", N: ls[len(ls)-1]})
+	}
+	for i := 0; i < 10 && !c.failed(); i++ {
+		c.step(vAct{A: "adv", T: 1000})
+	}
+	if !c.failed() {
+		c.step(vAct{A: "checkconv"})
 	}
 	c.stats.class("closing")
 }
